@@ -394,7 +394,7 @@ fn fragmented_read_histories(ctx: &mut Ctx) {
         let key: [u8; 40] = rng.arr();
         let machine = (k % 4) as u8;                    // 0 vanilla, 1 tbc, 2 wrath client (reads server headers), 3 wrath server (reads client headers)
         let items = 1 + rng.range(0, 8) as usize;
-        let script: Vec<(bool, u32, u32)> = (0..items).map(|_| (rng.chance(1, 2), match rng.range(0, 4) { 0 => 0x7FFF, 1 => 0x8000, 2 => rng.range(0x8000, 0x7FFFFF) as u32, _ => rng.range(0, 0x7FFF) as u32 }, rng.next() as u32)).collect();
+        let script: Vec<(bool, u32, u32)> = (0..items).map(|_| (rng.chance(1, 2), match rng.range(0, 4) { 0 => 0x7FFF, 1 => 0x8000, 2 => rng.range(0x8000, 0x7FFFFF) as u32, _ => crate::c11::edge_size(&mut rng, false) }, rng.next() as u32)).collect();
         let style = (k / 4) as u64 % 4;
         let truncate = k % 11 == 0;
         let sc = script.clone();
@@ -445,6 +445,8 @@ pub fn run(ctx: &mut Ctx) {
     histories(ctx);
     failed_write_histories(ctx);
     fragmented_read_histories(ctx);
+    // typed traffic through a receive buffer, split half and combined object side by side (c11::typed_traffic)
+    { let n = if ctx.quick() { 200 } else { 2000 }; for m in 0..3 { crate::c11::typed_traffic(ctx, m, n); } }
     unsplit_cases(ctx);
     threads(ctx);
     ownership_precondition(ctx);
